@@ -72,6 +72,10 @@ CHECKS = {
          "Every case of every layer within the bounds is compiled and, if it compiles, executed against a context holding the whole value universe; workers are separate processes with a 32 MB stack cap and a progress watchdog, a dead or hung worker is attributed to the case it had announced and the case is re-run in isolation; risky families run one sub-process per case. Oracle: exactly one of template/error, Execute returns, no panic, process alive, no hang.",
          "The tag/filter lists come from the registry hooks (a newly registered tag or filter is covered). Composition cycles kill the process on the pinned tree: 14 recorded known findings, one per cycle shape.",
          "DESIGN.md §3 C01"),
+ "C04": ("explicit-state exploration of all execution histories (length <=3/4 over a 4-context alphabet incl. a failing and a nil context) on one compiled template per program and option setting; state = canonical deep snapshot of everything reachable from the template; invariant + differential oracle",
+         "For every program (every tag, all nested pairs, whitespace layouts) x option setting the template is compiled once and every history of executions is run: after each execution a reflect/unsafe deep snapshot of the whole compiled object graph (nodes, tokens, blocks, macros, set, parents, included templates) must equal the initial one, and the (output, error) pair must equal that of a freshly compiled template on the same context.",
+         "Unexported package-level variables are not reachable by the snapshot (only their effect on later executions is seen); the quantifier's static clause is a different family and not covered.",
+         "DESIGN.md §3 C04"),
 }
 
 NOT_YET = {}
